@@ -147,15 +147,22 @@ func (r *Results) reach(label string) {
 func (e *Engine) blockedSig(st *State) []string {
 	var out []string
 	for _, g := range st.gs {
-		if g.Status == gParked && g.Pending != nil && len(g.Frames) > 0 && !g.IsMain {
+		if g.Status == gParked && g.Pending != nil && len(g.Frames) > 0 {
 			// innermost repository/overlay function on the stack
 			fn := g.Frames[len(g.Frames)-1].Fn.String()
+			inRepo := false
 			for i := len(g.Frames) - 1; i >= 0; i-- {
 				fi := e.info(g.Frames[i].Fn)
 				if fi.repo || fi.overlay {
 					fn = g.Frames[i].Fn.String()
+					inRepo = fi.repo
 					break
 				}
+			}
+			if g.IsMain && !inRepo {
+				// the harness main goroutine counts only when it is parked inside repository
+				// code (e.g. a harness that plays a node through the real routeResponse)
+				continue
 			}
 			out = append(out, fn+":"+opNamesK[g.Pending.Kind]+e.watchSuffix(st, g))
 		}
